@@ -400,3 +400,88 @@ def classify(X, E, rs, text_of):
         out.append(('crash', f"{r.kind}: {r.val}", txt(r.st)))
     for (kind, what, m, pc_), x_ in zip(E.ub, E.ub_x): out.append(('ub', f"{kind}: {what}", text_of(x_, m)))
     return out, stats
+
+# ---------------------------------------------------------------- literals: source text -> the constant the program loads
+def _lit_case(case):
+    ck = Check('C99', 'other'); ck.tier = 'quick'
+    try: literal_cases(ck, [case])
+    except Exception as e:
+        import traceback
+        return dict(error=f"{type(e).__name__}: {e}", tb=traceback.format_exc()[-800:])
+    c = ck.cov
+    return dict(violations=ck.violations, inconclusive=ck.inconclusive, cov={k: c[k] for k in ('paths', 'queries', 'solver_s', 'ir_steps', 'obligations', 'discharged')}, functions=sorted(c['functions'])[:300], fq=ck.final_queries[:1])
+
+def literal_kernel(ck, max_dec=10, max_hex=8):
+    """parallel driver of literal_cases"""
+    cases = [('dec', n) for n in range(1, max_dec + 1)] + [('hex', n) for n in range(1, max_hex + 1)]
+    if ck.tier == 'quick': cases = [c for c in cases if c in (('dec', 1), ('dec', 2), ('dec', 3), ('dec', 4), ('dec', max_dec), ('hex', 1), ('hex', 4), ('hex', max_hex))]     # the longest ones carry the 2^32 boundary
+    XFull()
+    with multiprocessing.Pool(16) as pool:
+        hs = [pool.apply_async(_lit_case, (c,)) for c in cases]
+        for c, h in zip(cases, hs):
+            try: r = h.get(timeout=1500)
+            except multiprocessing.TimeoutError: ck.fail_inconclusive(f"X literal kernel {c}: timeout"); continue
+            if r.get('error'): ck.fail_inconclusive(f"X literal kernel {c}: {r['error']}"); continue
+            for k in ('paths', 'queries', 'solver_s', 'ir_steps', 'obligations', 'discharged'): ck.cov[k] += r['cov'][k]
+            ck.cov['functions'] |= set(r['functions'])
+            if len(ck.final_queries) < 40: ck.final_queries += r['fq']
+            for key, what, rp in r['violations']: ck.violation(key, what, rp, True)
+            for msg in r['inconclusive']: ck.fail_inconclusive(msg)
+    ck.sample({'kernel': 'X literals: source text -> constant loaded', 'cases': [f'{k}{n}' for k, n in cases]})
+
+def literal_cases(ck, cases):
+    """`proc main() is 0(<literal>)` with every digit a symbol, through the whole compiler: on every path the constant the
+    generated code loads (an LDAC immediate or a constant-pool DATA word - the only symbolic value fields of the listing) is
+    the literal's value mod 2^32. Decimal literals of 1..max_dec digits (value < 2^32) and hex literals #h..h of 1..max_hex digits."""
+    X = XFull()
+    for kind, n in cases:
+        ds = [z3.BitVec(f'{kind}{n}_{i}', 8) for i in range(n)]
+        if kind == 'dec':
+            pre = [z3.And(z3.UGE(d, 48), z3.ULE(d, 57)) for d in ds]
+            V = z3.BitVecVal(0, 64)
+            for d in ds: V = V * 10 + (z3.ZeroExt(56, d) - 48)
+            pre.append(z3.ULT(V, 1 << 32)); lit = ds
+        else:
+            def hv(d):
+                c = z3.ZeroExt(56, d)
+                return z3.If(z3.ULE(c, 57), c - 48, z3.If(z3.UGE(c, 97), c - 87, c - 55))
+            pre = [z3.Or(z3.And(z3.UGE(d, 48), z3.ULE(d, 57)), z3.And(z3.UGE(d, 65), z3.ULE(d, 70)), z3.And(z3.UGE(d, 97), z3.ULE(d, 102))) for d in ds]
+            V = z3.BitVecVal(0, 64)
+            for d in ds: V = V * 16 + hv(d)
+            lit = [ord('#')] + ds
+        src = list(b"proc main() is 0(") + lit + list(b")\n")
+        E = X.engine(src); st = State(); st.pc = list(pre)
+        s = st.alloc(520, 'istream'); st.wobj(s.obj).zero.append((0, 520))
+        E.store(st, s, 8, Ptr(('g', '_ZTTSt14basic_ifstreamIcSt11char_traitsIcEE$fakevt'), 24))
+        b = st.alloc(8, 'bin-stream'); l = st.alloc(8, 'listing-stream')
+        for r in E.run('xf_compile', [s, b, l], st):
+            def text(m): return ''.join(chr(model_int(m, c)) if not is_c(c) else chr(c) for c in lit) if m is not None else '?'
+            if r.kind != 'ret':
+                ok_, m = E.sat(r.st)
+                ck.violation(f"x-literal:{kind}:{n}:{r.kind}", f"compiling `0({text(m)})` ends in {r.kind}: {str(r.val)[:160]}", None); continue
+            bs = out_bytes(r.st); nrec = r.val
+            lst = bs[len(bs) - 16*nrec:]
+            vals = []
+            for k in range(nrec):
+                w = lst[16*k + 12:16*k + 16]
+                if any(isinstance(x, Undef) for x in w): continue
+                if not all(is_c(x) for x in w): vals.append(z3.Concat(*[bv(x, 8) for x in reversed(w)]))
+            claim = z3.And([v == z3.Extract(31, 0, V) for v in vals]) if vals else z3.BoolVal(False)
+            ok, m = ck.prove(E, r.st, claim, f"{kind} literal of {n} digits: the constant the code loads is the literal's value")
+            if not ok:
+                t = text(m); key = f"x-literal:{t}"
+                got = [str(m.eval(v, model_completion=True)) for v in vals]
+                ck.violation(key, f"the literal {t} is compiled to the constant(s) {got or 'none'}", ck.replay_file(key, {'source': f"proc main() is 0({t})", 'constants_loaded': got}), confirm_literal(t))
+        ck.engine(E, 'whole compiler on a literal with symbolic digits')
+
+def confirm_literal(t):
+    """native: compile `proc main() is 0(<t>)` with the real xcmp, run it on the real hexsim: the exit status must be value & 0xff"""
+    d = tempfile.mkdtemp(dir=os.path.join(build.VERIF, 'build'))
+    try:
+        open(os.path.join(d, 'p.x'), 'w').write(f"proc main() is 0({t})\n")
+        r = subprocess.run([build.tool('xcmp'), 'p.x', '-o', 'p.bin'], cwd=d, capture_output=True, timeout=60)
+        if r.returncode != 0: return True
+        r2 = subprocess.run([build.tool('hexsim'), 'p.bin'], cwd=d, capture_output=True, timeout=60)
+        v = int(t[1:], 16) if t.startswith('#') else int(t)
+        return r2.returncode != (v & 0xff)
+    finally: shutil.rmtree(d, ignore_errors=True)
